@@ -8,7 +8,11 @@ const char *strchr(const char *s, int c) { for (;; s++) { if (*s == (char)c) ret
 #include "src/clutils/errordesc.cc"
 #include "verif.h"
 
+#ifdef VERIF_TIER_THOROUGH
+#define SN 9
+#else
 #define SN 7
+#endif
 static int is_ws(int c) { return c == ' ' || c == '\t' || c == '\n' || c == '\r' || c == '\f' || c == '\v'; }
 static void script(const char *s, unsigned len) { g_stream_arbitrary = 0; for (int i = 0; i < SN; i++) g_stream_script[i] = s[i]; g_stream_len = len; }
 
